@@ -69,6 +69,14 @@ def oracle_pass(chk, scripts, traces, props, pristine=False):
                 if ucid in prevg and (ucid not in nowgr or any(prevg[ucid][k] != nowgr[ucid][k] for k in ('pool', 'exclusive', 'portion', 'cputype'))):
                     fs.append(dict(fsoracle.F('C01', 'refused-update-keeps-allocation', 'refused-update-changed-allocation',
                                               'UpdateContainer of %s was refused and its allocation went from %s to %s' % (ucid, prevg[ucid], nowgr.get(ucid)), rec['seq']), ctr=ucid))
+            # the same theorem probed on the state the history ends in: every grant, released and put back the way a refused
+            # update does it (releasePool, reinstateGrants(.., true)), is accepted by the CPU tests of supply.reserve and
+            # leaves pools and grants as they were (restore_after_release_reachable: Ok s' with st_eq s' s)
+            for pr in (rec.get('restore_probe') or []):
+                if (pr.get('err') and pr.get('cpu_side')) or (not pr.get('err') and not pr.get('same')):
+                    fs.append(dict(fsoracle.F('C01', 'refused-update-keeps-allocation', 'release-and-restore-not-identity',
+                                              'after the last event the grant of %s was released and put back as a refused update does: %s' % (
+                                                  pr.get('id'), pr.get('err') or 'pools or grants differ afterwards'), rec['seq']), ctr=pr.get('id')))
             fs = [dict(f, sig=f['sig'] + ':after-update-request') if f['sig'] == 'overlapping-container-has-no-grant' and lost_at.get(f.get('ctr')) == 'UpdateContainer' else f for f in fs]
             if ev.get('op') in ('Reconfigure', 'Restart'):
                 reinstated = True
@@ -112,6 +120,7 @@ def run(tier, seed, replay=None):
         'tree_wfb holds for the pool trees the policy builds (C16); evaluated on every trace',
         'tie: full-stack harness (real resmgr + policy on synthetic sysfs) -> traces evaluated by TA_Model.check_segments inside Coq; oracle evaluates the clauses on snapshots + cache',
         'modelled not verified: scoring/sorting of pools, cpuallocator choice (C08), hint/affinity code, Go runtime',
+        'restore probe: after the last event of every history each grant is released and put back as a refused update does (harness-only call of releasePool + reinstateGrants(..,true)); it ties C01_refused_update_restores_allocation to the code on the final state of each history only',
         'containers without a grant (stale pinning after a failed update, K3) are outside the theorem; the oracle reports them with their own signature',
     ]
     chk.prove('C01_Props')
@@ -128,6 +137,10 @@ def run(tier, seed, replay=None):
     pstats['distinct_trees_nested'] = nested_trees_check(chk, traces)
     nt = sum(1 for r in traces.values() if nontrivial_history(r))
     events = sum(len(r) for r in traces.values())
+    probes = [p for r in traces.values() for rec in r for p in (rec.get('restore_probe') or [])]
+    pstats['restore_probe'] = {'grants_released_and_put_back': len(probes), 'accepted_and_identical': sum(1 for p in probes if not p.get('err') and p.get('same')),
+                               'grant_fills_its_pool_exactly': sum(1 for p in probes if p.get('fills_pool')),
+                               'refused_by_memory_side': sum(1 for p in probes if p.get('err') and not p.get('cpu_side'))}
     chk.samples += [{'history': s['name'], 'machine': s['_machine']['name'], 'config': s['config'], 'first_events': [e['op'] for e in s['events'][:12]]} for s in scripts[:2]]
     return chk.finish(
         rule='random structured NRI histories (create/start/update/stop/remove, synchronize, reconfigure, restart) on 10 synthetic machines (the corpus of recorded histories is replayed first, 3 copies each); '
